@@ -5,12 +5,13 @@ import (
 	vrt "src.elv.sh/pkg/zzvrt"
 )
 
-var verifC40Cmds = []string{"nop", "put a", "echo b", "fail x", "put (put c)", "each {|x| put $x }", "take 1", "range 40", "put ?(fail y)", "put (echo d | take 1)"}
+var verifC40Cmds = []string{"nop", "put a", "echo b", "fail x", "put (put c)", "each {|x| put $x }", "take 1", "range 40", "put ?(fail y)", "put (echo d | take 1)", "keep-if {|x| fail z } [a]", "keep-if {|x| put $true } [a b]", "order &key={|x| fail k } [b a]"}
 var verifC40Redirs = []string{"", " >&-", " 2>&1", " > /nonexistent/x", " <&-"}
 
-// VerifC40Leak: every pipeline of nforms forms, each one of ten commands
+// VerifC40Leak: every pipeline of nforms forms, each one of thirteen commands
 // (plain, failing, output- and exception-capturing, stream builtins, a
-// producer larger than the channel buffer) with one of five redirections,
+// producer larger than the channel buffer, builtins that capture the output of
+// a succeeding or failing callback) with one of five redirections,
 // evaluated twice by the same real interpreter: once every goroutine has run
 // as far as it can, no pipe end created by the evaluation is still open and
 // no goroutine it started is still alive.
